@@ -45,9 +45,13 @@ claim(
     "PARTIAL. Theorems (Lean): the specification `denote` (sum of products) is invariant under commuting / reassociating / "
     "distributing operators and `a - b = a + (-1)*b`; the desugaring pass (ported, exact tree correspondence with the code on every "
     "run) preserves the specification for every assignment outside the signature of known finding F12 (`desugar_correct`), with a "
-    "closed witness that the signature is real; stored content is format independent (C09 `decode_encode`). The back half "
-    "(iteration graph -> IR) is not yet a Lean function: the IR the compiler actually emits is executed on the Lean IR machine and on "
-    "the real LLVM back end for enumerated problems x formats x inputs and compared with the specification, decoding raw arrays.",
+    "closed witness that the signature is real; stored content is format independent (C09 `decode_encode`); every candidate iteration "
+    "graph denotes the assignment (`toIterationGraphs_denote_source`). The lowering pass is ported (exact IR correspondence each run) "
+    "and proved correct on the machine piecewise: the terminal block for both output kinds (`toIr_sound`, `terminal_append_sound`, "
+    "`terminal_bucket_sound`, exact over Rat), and END TO END for dense element-wise vector kernels (`dense1_kernel_correct`, "
+    "`dense1_kernel_exact`: the generated evaluate function returns 0 and leaves exactly `value e` at every coordinate, all sizes, all "
+    "inputs). For all other problems the IR the compiler actually emits is executed on the Lean IR machine and on the real LLVM back end "
+    "for enumerated problems x formats x inputs and compared with the specification, decoding raw arrays.",
     "Lean 4 theorems on hand-written models of spec+desugar; emitted kernels executed on the Lean IR machine and LLVM vs the spec",
     "DESIGN.md section 6 C01",
     "Partial: 'for all inputs of every emitted kernel' is small-scope execution, not a theorem. Values are small integers in binary64.",
@@ -73,7 +77,9 @@ claim(
     "unpickling/constructors perform (`wf_validate`), is read back without any out-of-range access and with pairwise distinct "
     "coordinates (`wf_decode`), and every constructor output is well-formed (`decode_encode`). Kernel outputs: evaluate and "
     "assemble+compute outputs of enumerated problems at initial capacities 1,2,3,default are checked with `wfCheck` on the final "
-    "machine blocks and on the real LLVM result's raw arrays, which is also pickled, compared, converted and fed to another kernel.",
+    "machine blocks (Hoare theorems on the machine for the fragments behind it: `appendCleanup_exact_sizes` - the final reallocs give "
+    "pos/crd/vals exactly the sizes the structure describes, every format - and `merge_loop_increasing` - coordinates appended by a "
+    "merge loop are strictly increasing) and on the real LLVM result's raw arrays, which is also pickled, compared, converted and fed to another kernel.",
     "Lean 4 theorems on the storage model + wfCheck applied to machine-executed and real kernel outputs",
     "DESIGN.md section 6 C02", MACHINE,
 )
@@ -107,7 +113,9 @@ claim(
     "every emitted kernel (3 kinds) of the enumeration runs on it at capacities 1,2,3,default and must return 0 with live, "
     "long-enough arrays. Universal over the ported lowering pass: store-target theorems (`generateIr_store_targets_best/_peep`: every "
     "kernel stores only into locals and arrays of the output tensor) and Hoare lemmas for the growth fragments on the machine "
-    "(`writeCrdAssembly_safe`, `writePosAllocation_*_safe`, `append_from_init_safe`: growth precedes every append from any initial capacity).",
+    "(`writeCrdAssembly_safe`, `writePosAllocation_*_safe`, `append_from_init_safe`: growth precedes every append from any initial capacity) "
+    "and for the sparse merge-loop skeleton the pass emits (`lower_emits_mergeLoop`, `merge_loop_safe`: every crd load in bounds, "
+    "termination within the sum of segment lengths, `writeSparseInit_safe`).",
     "Lean 4 frame theorems + monitored execution of every emitted kernel on the Lean IR machine",
     "DESIGN.md section 6 C05", MACHINE + " Allocation-size arithmetic >= 2^29 elements (F9) is not replayed.",
 )
@@ -142,8 +150,11 @@ claim(
     "C16",
     "PARTIAL. Theorems: `deadVar_frame` (a dead variable cannot influence the run: same iterations and steps from states that "
     "differ only in it, for all programs/states/fuel), `context_sparse_of_condition` (the property's condition makes the compiler "
-    "classify the loop as sparse) and `context_sparse_sound`. The certificate 'dimension variable <i>_dim is dead' is checked on the "
-    "emitted evaluate kernel of every qualifying problem, and iterations/steps are measured under scalings x1, x10, x10^4.",
+    "classify the loop as sparse) and `context_sparse_sound`; universal over the ported lowering pass: `generateIr_deadDim` / "
+    "`generateIr_dim_frame` (for every graph meeting the decidable condition `dimFree i`, every kernel kind, optimised or not, never reads "
+    "<i>_dim and runs identically from states differing only in it), `merge_loop_single` (a single-leaf sparse loop iterates exactly once "
+    "per stored entry). The certificate 'dimension variable <i>_dim is dead' is checked on the emitted evaluate kernel of every "
+    "qualifying problem together with the theorem's hypotheses, and iterations/steps are measured under scalings x1, x10, x10^4.",
     "Lean 4 non-interference theorem + per-kernel dead-variable certificate + counter measurements on the Lean IR machine",
     "DESIGN.md section 6 C16", MACHINE,
 )
